@@ -258,6 +258,12 @@ func ValidateParameter(ctx context.Context, input *RequestValidationInput, param
 				}
 				populateDefaultQueryParameters(q, parameter.Name, value, sm)
 				req.URL.RawQuery = q.Encode()
+				if cached := input.QueryParams; cached != nil {
+					// the input's own view of the query sees the default too, or validating the same
+					// input again would add it once more
+					cached.Del(parameter.Name)
+					populateDefaultQueryParameters(cached, parameter.Name, value, sm)
+				}
 			case openapi3.ParameterInHeader:
 				text := formatDefaultValue(value)
 				if object, ok := value.(map[string]any); ok {
